@@ -196,7 +196,13 @@ pub fn judge_consumer_gone_first(src: Fmt, detect: bool, to: Fmt, size: &'static
     if variant % 2 == 1 {
         argv.push("-".into());
     }
-    let out = procmon::run(Run { bin: &procmon::release_bin(), argv, cwd: sc.path(), stdin: StdinKind::BytesAfterConsumerLeft(data), stdout: StdoutKind::CloseAfter(0), wall_secs: 120, cpu_secs: 60 });
+    let bin = procmon::release_bin();
+    let mk = || Run { bin: &bin, argv: argv.clone(), cwd: sc.path(), stdin: StdinKind::BytesAfterConsumerLeft(data.clone()), stdout: StdoutKind::CloseAfter(0), wall_secs: 120, cpu_secs: 60 };
+    let mut out = procmon::run(mk());
+    if out.status == Status::Exit(0) {
+        acc.count("exit_0_observations_confirmed_under_exclusion");
+        out = procmon::run_exclusive(mk());
+    }
     acc.count("consumer_gone_first_runs");
     acc.count(&format!("consumer_gone_first_{}{}_{}", src.name(), if detect { "_detected" } else { "" }, size));
     if matches!(out.status, Status::Timeout | Status::SpawnError(_)) {
@@ -263,7 +269,14 @@ pub fn judge_late_small_input(to: Fmt, k: usize, first_bytes: usize, acc: &mut A
     let sc = Scratch::new();
     sc.file("first.json", &big_json(first_bytes, false));
     let argv: Vec<String> = vec!["-t".into(), to.name().into(), "first.json".into(), "-".into()];
-    let out = procmon::run(Run { bin: &procmon::release_bin(), argv, cwd: sc.path(), stdin: StdinKind::BytesAfterConsumerLeft(b"{\"late\": [1, 2, 3]}\n".to_vec()), stdout: StdoutKind::CloseAfter(k), wall_secs: 120, cpu_secs: 60 });
+    let bin = procmon::release_bin();
+    let mk = || Run { bin: &bin, argv: argv.clone(), cwd: sc.path(), stdin: StdinKind::BytesAfterConsumerLeft(b"{\"late\": [1, 2, 3]}\n".to_vec()), stdout: StdoutKind::CloseAfter(k), wall_secs: 120, cpu_secs: 60 };
+    let mut out = procmon::run(mk());
+    if out.status == Status::Exit(0) {
+        // "exit 0" needs a reader on the pipe: confirm it while nothing else is being spawned (see procmon::run_exclusive)
+        acc.count("exit_0_observations_confirmed_under_exclusion");
+        out = procmon::run_exclusive(mk());
+    }
     acc.count("late_small_input_runs");
     if matches!(out.status, Status::Timeout | Status::SpawnError(_)) || out.stdout.len() != k {
         acc.inconclusive += 1;
@@ -355,7 +368,7 @@ pub fn run(ctx: &Ctx) -> i32 {
         for detect in [false, true] {
             for to in ALL {
                 for size in ["small", "medium"] {
-                    for variant in 0..(if ctx.thorough() { 6 } else { 2 }) {
+                    for variant in 0..std::env::var("XTV_C16_VARIANTS").ok().and_then(|v| v.parse().ok()).unwrap_or(if ctx.thorough() { 6 } else { 2 }) {
                         matrix.push((src, detect, to, size, variant));
                     }
                 }
@@ -376,7 +389,7 @@ pub fn run(ctx: &Ctx) -> i32 {
     }
     let rule = format!("{} closing-pipe runs: the consumer takes exactly k bytes for k in {:?} and closes while more than 1 MiB of output remains, x 4 targets x input layouts (one 3 MiB file, 3 MiB on stdin, ten 400 KiB files so that the failure is also met in the per-input flush), single-table and multi-document inputs, JSON input named explicitly for every case plus (quick) one rotating or (thorough) every other choice of source format JSON/YAML/MessagePack/TOML, named or detected; a matrix source x named/detected x target x small/40 KiB input in which the consumer is gone before stdin delivers anything (failure met in the final flush for small outputs) and the same matrix with stdout on /dev/full (stdin and file); plus 16 runs with stdout on /dev/full (outputs below and above the 8 KiB buffer) and 15 runs in which the consumer leaves after the first input's output and a second, small input arrives only afterwards (failure met in the per-input flush); distinct non-trivial = distinct (target, k, layout) cases", cs.len(), KS);
     ev::finish(
-        Finish { ctx, level: "fault_enumeration", rule, assumptions: vec!["the kernel's pipe semantics: a write to a pipe whose read end is closed fails with EPIPE".into(), "a run in which the consumer could not obtain k bytes is inconclusive, not a violation".into()], extra: serde_json::Map::new(), exhaustive: false, min_distinct: 40, must_reach: vec![("killed_by_sigpipe_silently".into(), 40), ("dev_full_runs".into(), 16), ("dev_full_status_1_with_message".into(), 100), ("consumer_gone_first_runs".into(), 100), ("source_yaml_detected".into(), 3), ("source_msgpack".into(), 3), ("late_small_input_runs".into(), 15), ("layout_many_files".into(), 5), ("layout_stdin".into(), 5)] },
+        Finish { ctx, level: "fault_enumeration", rule, assumptions: vec!["the kernel's pipe semantics: a write to a pipe whose read end is closed fails with EPIPE".into(), "a run in which the consumer could not obtain k bytes is inconclusive, not a violation".into(), "an 'exit 0 although the consumer had left' observation is confirmed by one more run during which no other process is spawned (a concurrently spawned child briefly holds a copy of the read end)".into()], extra: serde_json::Map::new(), exhaustive: false, min_distinct: 40, must_reach: vec![("killed_by_sigpipe_silently".into(), 40), ("dev_full_runs".into(), 16), ("dev_full_status_1_with_message".into(), 100), ("consumer_gone_first_runs".into(), 100), ("source_yaml_detected".into(), 3), ("source_msgpack".into(), 3), ("late_small_input_runs".into(), 15), ("layout_many_files".into(), 5), ("layout_stdin".into(), 5)] },
         acc,
     )
 }
